@@ -931,6 +931,10 @@ def evalE : Nat → FE → Ctx → St → Res V
         | .throw t σ2 => .throw t σ2
         | .fuel => .fuel
       | r => r
+    | .fnCtor f =>
+      -- §15.3.2.1 step 11: the new function's [[Scope]] is the GLOBAL environment, whatever the caller's is
+      let (fv, σ1) := mkFunc σ f 0
+      .ok fv σ1
     | .func name ps vs ds body =>
       (match name with
        | none => let (f, σ1) := mkFunc σ (.func name ps vs ds body) c.env; .ok f σ1
@@ -1433,5 +1437,12 @@ end
 /-- §10.4.1 global code: bindings on the global object, this = the global object -/
 def runProgram (n : Nat) (vs : List String) (ds : FDecls) (body : FSs) : Res V :=
   runCode n vs ds body { env := 0, venv := 0, this := .ref gObj } initSt false
+
+/-- two programs run one after the other on the same global object (two Run calls on one runtime): what the first
+    left behind is there BEFORE the declaration binding instantiation of the second -/
+def runProgram2 (n : Nat) (vs1 : List String) (ds1 : FDecls) (body1 : FSs) (vs2 : List String) (ds2 : FDecls) (body2 : FSs) : Res V :=
+  match runCode n vs1 ds1 body1 { env := 0, venv := 0, this := .ref gObj } initSt false with
+  | .ok _ σ1 => runCode n vs2 ds2 body2 { env := 0, venv := 0, this := .ref gObj } σ1 false
+  | r => r
 
 end OttoVerif.C01.Fn
